@@ -2728,3 +2728,164 @@ RECIPES += (
     + _pair(_T1_COLLECT_CLOSURE % "        ", _T1_COLLECT_CLOSURE % "       ", _T1_LEFT_SMALL, ["C13-R1"],
             "tabled1 small field: the pieces of the last line appended to a list of the enclosing function by a nested function", "a head of seven blanks")
 )
+
+# ---- constructs met in a fifth blind round (written while this pass was under way): templates cut with .rstrip, the newline of a line supplied by
+# ---- print, nested replacement fields in a format spec, str.format_map, str.translate, `match` on the value of a call with a capture and a guard,
+# ---- a helper behind a module-level functools.lru_cache wrapper
+_CSUPER_RSTRIP = '''    head = ("{:<8s}" + "{:8d}" * %d + "\\n").rstrip("\\n")
+    f.write(head.format("CSUPER", superid, 0))
+    wtnasints(f, 4, grids)
+'''
+
+_NASINTS_PRINT = '''    blank, int8 = "{:8s}", "{:8d}"
+    n = len(ints)
+    firstline = 10 - start
+    if n >= firstline:
+        i = firstline
+        print((int8 * i).format(*ints[:i]), file=f)
+        # continuation lines start with a blank field
+        fullline = "".join((blank, int8 * 8, "\\n")).format
+        put = f.write
+        while n >= i + 8:
+            put(fullline("", *ints[i : i + 8]))
+            i += 8
+        if n > i:
+            n -= i
+            print("".join((blank, int8 * n)).format("", *ints[i%s:]), file=f)
+    else:
+        print((int8 * n).format(*ints), file=f)
+'''
+
+_T1_NESTED_HEAD = '''    first = "{:<8s}{:{}d}\\n"
+''' + _T1_BODY.replace('''        f.write(f"{tablestr:<8s}{tid:16d}\\n*\\n")
+''', '''        f.write(first.format(tablestr, tid, 16) + "*\\n")
+''').replace('''        f.write(f"{tablestr:<8s}{tid:8d}\\n")
+''', '''        f.write(first.format(tablestr, tid, %d))
+''')
+
+_GRIDS_FORMAT_MAP = '''    if len(teststr) > 8:
+        pieces = {
+            "name": "GRID*".ljust(8),
+            "int": f"{{:{length}d}}",
+            "opt": f"{{:>{length}}}",
+            "xyz": form * 2 + "\\n" + "*".ljust(8) + form,
+        }
+    else:
+        pieces = {
+            "name": "GRID".ljust(8),
+            "int": f"{{:{length}d}}",
+            "opt": f"{{:>{length}}}",
+            "xyz": form * %d,
+        }
+    if ps == seid == "":
+        string = "{name}{int}{int}{xyz}{int}\\n".format_map(pieces)
+        writer.vecwrite(f, string, grids, cp, xyz[:, 0], xyz[:, 1], xyz[:, 2], cd)
+    else:
+        string = "{name}{int}{int}{xyz}{int}{opt}{opt}\\n".format_map(pieces)
+        writer.vecwrite(
+            f, string, grids, cp, xyz[:, 0], xyz[:, 1], xyz[:, 2], cd, ps, seid
+        )
+'''
+
+_DMIG_TRANSLATE = '''                        if mtype < 3:  # real
+                            parts = (num,)
+                        else:  # complex
+                            parts = (num.real, num.imag)
+                        exponent = str.maketrans("E", "D" if mtype & 1 == %d else "E")
+                        num_str = "".join(format(part, "16.9E") for part in parts)
+                        f.write("*".ljust(8) + "{:16d}{:16d}{}\\n".format(gi, ci, num_str.translate(exponent)))
+'''
+
+_THRU_MATCH = '''    length = len(seq)
+    start = 0
+    fields = init_func([], False)
+    init_length = len(fields)
+    while start < length:
+        match _find_sequence(seq, start):
+            case end if end > start:
+                if len(fields) > init_length:
+                    fields = init_func(fields)
+                fields.extend([seq[start], "THRU", seq[end]])
+                start = end + %d
+                fields = init_func(fields)
+            case end:
+                fields.append(seq[start])
+                start += 1
+        if len(fields) == 9:
+            fields = init_func(fields)
+'''
+
+_NASINTS_CACHED = '''    n = len(ints)
+    firstline = 10 - start
+    if n >= firstline:
+        i = firstline
+        f.write(_cached_ints_template(i, False).format(*ints[:i]))
+        while n >= i + 8:
+            f.write(_cached_ints_template(8, True).format("", *ints[i : i + 8]))
+            i += 8
+        if n > i:
+            n -= i
+            f.write(_cached_ints_template(n, True).format("", *ints[i:]))
+    else:
+        f.write(_cached_ints_template(n, False).format(*ints))
+
+
+def _mk_ints_template(count, blank_first):
+    """format string for a line of `count` integers (after a blank field, for a continuation line)"""
+    template = "{:8d}" * %s + "\\n"
+    return "{:8s}" + template if blank_first else template
+
+
+import functools
+
+_cached_ints_template = functools.lru_cache(maxsize=None)(_mk_ints_template)
+'''
+
+RECIPES += (
+    _pair(_CSUPER_RSTRIP % 2, _CSUPER_RSTRIP % 3, _CSUPER_TAIL, ["C13-R4"],
+          "wtcsuper: the head of the card from a line template cut with .rstrip", "one field too many before the integers")
+    + _pair(_NASINTS_PRINT % "", _NASINTS_PRINT % " + 1", _NASINTS, ["C13-R4"],
+            "wtnasints: templates without a newline of their own, the lines written by print(..., file=f)", "the last line starts one integer late")
+    + _pair(_T1_NESTED_HEAD % 8, _T1_NESTED_HEAD % 16, _T1_BODY, ["C13-R3"],
+            "tabled1: the width of the id field passed as a nested replacement field of the format spec", "a 16-column id on a small-field card")
+    + _pair(_GRIDS_FORMAT_MAP % 3, _GRIDS_FORMAT_MAP % 4, _GRIDS_BODY, ["C13-R1"],
+            "wtgrids: the template assembled by str.format_map from a table of pieces (field specs built by f-strings)", "four coordinate fields on a small-field card")
+    + _pair(_DMIG_TRANSLATE % 0, _DMIG_TRANSLATE % 1, _DMIG_TERM, ["C13-R3"],
+            "wtdmig: the exponent letter by str.translate, the parts joined from a generator expression (F12 keys must survive)", "D exponent for the odd (single precision) types")
+    + _pair(_THRU_MATCH % 1, _THRU_MATCH % 2, _THRU_LOOP, ["C13-R4"],
+            "_wt_with_thru: `match` on the value of the call, a capture with a guard", "the element after a run is skipped")
+    + _pair(_NASINTS_CACHED % "count", _NASINTS_CACHED % "(count + 1)", _NASINTS, ["C13-R4"],
+            "wtnasints: the templates from a helper behind a module-level functools.lru_cache wrapper", "one field too many in every template")
+)
+
+# ---- properties, class attributes and inheritance of small classes of the module
+_CSUPER_PROPS = '''    head = _CsuperHead(superid)
+    f.write(head.text)
+    wtnasints(f, head.start, grids)
+
+
+class _IntsHead:
+    """leading fields of a card that ends in a list of integers"""
+
+    name = ""
+    values = ()
+    start = 2
+
+    @property
+    def text(self):
+        return self.name.ljust(8) + "".join(f"{v:8d}" for v in self.values)
+
+
+class _CsuperHead(_IntsHead):
+    name = "CSUPER"
+
+    def __init__(self, superid):
+        self.values = (superid, 0)
+
+    @property
+    def start(self):
+        return %d + len(self.values)
+'''
+
+RECIPES += _pair(_CSUPER_PROPS % 2, _CSUPER_PROPS % 3, _CSUPER_TAIL, ["C13-R4"],
+                 "wtcsuper: the head of the card from a class with properties, a class attribute and a base class of the module", "the integers start one field late")
